@@ -229,11 +229,17 @@ def announceAdvsAux (self : Node) : List (List RAd) → Nat → List Adv
 def announceAdvs (self : Node) (st : NodeSt) (hint : List (List RAd)) : List Adv :=
   announceAdvsAux self (effGroups (announcedRoutes self st) hint) st.seq
 
-/-! ### WithdrawLocalRoutes -/
+/-! ### WithdrawLocalRoutes (split like an announcement: at most 255 routes per ROUTE_WITHDRAW) -/
 
-def withdrawAdv (self : Node) (st : NodeSt) : Adv :=
-  { origin := self, seq := st.seq + 1, routes := st.locals.filter (fun r => r.kind == 0),
-    path := [], seenBy := [self], wd := true }
+def withdrawnRoutes (st : NodeSt) : List RAd := st.locals.filter (fun r => r.kind == 0)
+
+def withdrawAdvsAux (self : Node) : List (List RAd) → Nat → List Adv
+  | [], _ => []
+  | g :: t, seq =>
+    { origin := self, seq := seq + 1, routes := g, path := [], seenBy := [self], wd := true } :: withdrawAdvsAux self t (seq + 1)
+
+def withdrawAdvs (self : Node) (st : NodeSt) (hint : List (List RAd)) : List Adv :=
+  withdrawAdvsAux self (effGroups (withdrawnRoutes st) hint) st.seq
 
 /-! ### SendFullTable -/
 
@@ -361,7 +367,7 @@ inductive Op where
   | disconnect (a b : Node)
   | replay (a b : Node) (hint : List RFrame)
   | announce (a : Node) (hint : List (List RAd))
-  | withdraw (a : Node)
+  | withdraw (a : Node) (hint : List (List RAd))
   | deliver (a b : Node) (i : Nat)
   | dup (a b : Node) (i : Nat)
   | drop (a b : Node) (i : Nat)
@@ -447,13 +453,13 @@ def stepCore (s : Net) : Op → Net
       { setNode s a { st with seq := st.seq + advs.length } with
         flight := s.flight ++ advs.flatMap (fun m => (peersOf s a).map (fun p => { src := a, dst := p, adv := m })) }
     else s
-  | .withdraw a =>
+  | .withdraw a hint =>
     -- WithdrawLocalRoutes returns early (no sequence number used) without local CIDR routes
     if a < s.n ∧ (s.nodes a).locals.any (fun r => r.kind == 0) then
       let st := s.nodes a
-      let m := withdrawAdv a st
-      { setNode s a { st with seq := st.seq + 1 } with
-        flight := s.flight ++ (peersOf s a).map (fun p => { src := a, dst := p, adv := m }) }
+      let advs := withdrawAdvs a st hint
+      { setNode s a { st with seq := st.seq + advs.length } with
+        flight := s.flight ++ advs.flatMap (fun m => (peersOf s a).map (fun p => { src := a, dst := p, adv := m })) }
     else s
   | .deliver a b i =>
     if a < s.n ∧ b < s.n ∧ linked s a b then
